@@ -297,6 +297,21 @@ class Program:
                 cls.attrs[target.id] = value
                 if target.id == '__slots__':
                     cls.slots = value
+                # `name = property(_getter)`: a property whose getter is a method defined
+                # above (the decorator form written out)
+                if isinstance(value, ast.Call) and isinstance(value.func, ast.Name) and \
+                        value.func.id == 'property' and len(value.args) == 1 and \
+                        not value.keywords and isinstance(value.args[0], ast.Name) and \
+                        value.args[0].id in cls.methods and target.id not in cls.methods:
+                    getter = cls.methods[value.args[0].id]
+                    qn = '%s.%s' % (cls.qn, target.id)
+                    if qn not in self.functions:
+                        view = FunctionInfo(qn, target.id, module, cls, getter.node,
+                                            getter.parent, getter.debug_only)
+                        view.is_property = True
+                        cls.methods[target.id] = view
+                        self.functions[qn] = view
+                        del cls.attrs[target.id]
             elif toplevel and cls is None and fn is None:
                 module.assigns.setdefault(target.id, []).append((value, stmt))
                 module.bindings[target.id] = ('assign', target.id, module.name)
